@@ -1395,7 +1395,7 @@ func (p *parser) parseLitMatcher(lit *litMatcher) (any, bool) {
 		if lit.ignoreCase {
 			cur = unicode.ToLower(cur)
 		}
-		if cur != want {
+		if cur != want || p.pt.w == 0 { // U+FFFD in a literal must not match the end of the input
 			p.failAt(false, start.position, lit.want)
 			p.restore(start)
 			return nil, false
